@@ -107,6 +107,7 @@ theorem consumeByteSequence_split (s c r : List Nat) (h : consumeByteSequence s 
   subst this
   split at h; · cases h
   rename_i a rest hb
+  split at h; · cases h
   simp only [Option.some.injEq, Prod.mk.injEq] at h
   obtain ⟨h1, h2⟩ := h
   subst h1; subst h2
